@@ -682,6 +682,43 @@ Proof.
 Qed.
 End SendProofs.
 
+(* ------------------------------------------------------------------------------------ *)
+(* the evaluation-only variant computes the same thing *)
+Lemma fill_fast_eq : forall vm env st td,
+  fill_fast vm env st td (get_size td) = fill vm env st td.
+Proof.
+  intros vm env. induction st as [|e st IH]; intros td; [reflexivity|].
+  cbn [fill_fast fill]. rewrite get_size_add, remove_last_add. fold (esize (from_event_log e vm env)).
+  destruct (max_message_size <=? get_size td + esize (from_event_log e vm env)) eqn:E; [reflexivity|].
+  rewrite <- get_size_add. apply IH.
+Qed.
+
+Lemma send_loop_fast_eq : forall vm env fuel st o,
+  send_loop_fast vm env fuel st o = send_loop vm env fuel st o.
+Proof.
+  intros vm env. induction fuel as [|f IH]; intros st o; destruct st as [|e st]; try reflexivity.
+  cbn [send_loop_fast send_loop]. rewrite fill_fast_eq.
+  destruct (fill vm env (e :: st) []) as [[td st'] dr]. destruct (send_data td o) as [atts o1].
+  rewrite IH. reflexivity.
+Qed.
+
+Lemma process_files_fast_eq : forall vm env files o,
+  process_files_fast vm env files o = process_files vm env files o.
+Proof.
+  intros vm env. induction files as [|[name c] rest IH]; intros o; [reflexivity|].
+  cbn [process_files_fast process_files]. destruct c as [evs|].
+  - unfold send_events_fast, send_events. rewrite send_loop_fast_eq.
+    destruct (send_loop vm env (length evs) (rev evs) o) as [[rs o1]|]; [|reflexivity].
+    rewrite IH. reflexivity.
+  - rewrite IH. reflexivity.
+Qed.
+
+Lemma process_events_fast_eq : forall vm env dir o,
+  process_events_fast vm env dir o = process_events vm env dir o.
+Proof.
+  intros. unfold process_events_fast, process_events. rewrite process_files_fast_eq. reflexivity.
+Qed.
+
 (* ==================================================================================== *)
 (* 8. well-formedness: the parser reads back exactly what was written                    *)
 (* ==================================================================================== *)
